@@ -46,7 +46,8 @@ Theorem C06_expand_spec : forall fs glob r args, fst (expand fs glob r args) = f
 Proof. exact expand_spec. Qed.
 
 (* clause "with -z ... non-gzip files are read from their first byte": whatever number k of bytes
-   the gzip probe consumed, the reader delivers the whole content (the Seek(0)); without the rewind
+   the gzip probe consumed, the reader delivers the whole content (the probed bytes are replayed; a TFile node is any
+   non-directory entry, seekable or not); without that
    the first min(k, length) bytes would be lost *)
 Theorem C06_plain_from_first_byte : forall gunzip c k, gunzip c = None ->
   open_input gunzip true k (Found (TFile c)) = Some (c, false, 1).
@@ -55,6 +56,11 @@ Theorem C06_plain_without_z : forall gunzip c k, open_input gunzip false k (Foun
 Proof. exact plain_no_gunzip. Qed.
 Theorem C06_noseek_loses : forall k c, open_input_noseek k c = skipn (Nat.min k (List.length c)) c.
 Proof. exact noseek_loses. Qed.
+(* the fallback by Seek(0) delivers everything only from a seekable descriptor; from a pipe (named
+   pipe, /dev/stdin, process substitution) the probed bytes are lost — hence record-and-replay *)
+Theorem C06_seek_fallback : forall seekable k c,
+  open_input_seek seekable k c = if seekable then c else skipn (Nat.min k (List.length c)) c.
+Proof. exact seek_fallback. Qed.
 (* clause "with -z gzip content is delivered decompressed" (and a stream that ends in an error is marked) *)
 Theorem C06_gzip_decoded : forall gunzip c k d e, gunzip c = Some (d, e) ->
   open_input gunzip true k (Found (TFile c)) = Some (d, e, 0).
